@@ -28,6 +28,13 @@ int main(int argc, char **argv) {
     v_install_crash_handlers();
     IN = malloc(4096); IN2 = malloc(512); OUT = malloc(8192); OUT2 = malloc(8192); gh = malloc(crypto_generichash_statebytes() + 64);
     unsigned long long l; int r;
+    if (argc > 3 && !strncmp(argv[3], "bigmem", 6)) {
+        /* Argon2 over more than 2^22 one-KiB blocks (memlimit 4 GiB + 16 MiB, one pass): block offsets beyond 32 bits in every fill-segment backend */
+        static const char pw[] = "corpus password"; unsigned char salt[16]; memset(salt, 0x42, 16); size_t mem = ((size_t) 4 << 30) + ((size_t) 16 << 20);
+        r = crypto_pwhash(OUT, 32, pw, sizeof pw - 1, salt, 1, mem, crypto_pwhash_ALG_ARGON2ID13); emit("pwhash_argon2id_4g", 0, 0, r, OUT, 32);
+        if (!strcmp(argv[3], "bigmem2")) { r = crypto_pwhash(OUT, 32, pw, sizeof pw - 1, salt, 3, mem, crypto_pwhash_ALG_ARGON2I13); emit("pwhash_argon2i_4g", 0, 0, r, OUT, 32); }
+        v_close(); return 0;
+    }
     /* block counters of the vector backends: every batch offset across 2^32, the sign bit of the low word, high words */
     { static const size_t WL[] = { 192, 256, 320, 511, 512, 576, 768, 1024, 1088 };
       static const unsigned long long IC[] = { 0xffffffffULL, 0xfffffffeULL, 0xfffffffdULL, 0xfffffffcULL, 0xfffffffbULL, 0xfffffffaULL, 0xfffffff9ULL, 0xfffffff8ULL, 0xfffffff7ULL,
